@@ -134,7 +134,12 @@ func checkLS2(c Case, r *ev.Rec) error {
 		parserProbe = true
 		r.Class(fmt.Sprintf("ls2:defect-at-key-index:%d", min(i, 2)))
 	case "keylen-vs-data":
-		keys[(c.N/2)%len(keys)].KeyLen++
+		if i := (c.N / 2) % len(keys); c.N%3 == 0 {
+			// the data is longer than declared by exactly 2^16: equal modulo the width of the length field
+			keys[i].KeyData = append(append([]byte{}, keys[i].KeyData...), make([]byte, 65536)...)
+		} else {
+			keys[i].KeyLen++
+		}
 	case "no-keys":
 		keys = nil
 	case "17-keys":
